@@ -5,3 +5,77 @@ From H2T Require Import Base Tagged Wrap Sub Css Dom Render Api Proofs.Small.
 Theorem c09_push_pop : forall s a, ann_stack (pop_ann (push_ann s a)) = ann_stack s.
 Proof. exact pop_push_ann. Qed.
 Print Assumptions c09_push_pop.
+
+(* ---------- tree level (Proofs/AnnBalance.v): no annotation leaks, every tag extends the enclosing stack ---------- *)
+From H2T Require Import Sub Css Dom Render Api Proofs.WrapInv Proofs.RenderWidth Proofs.AnnBalance.
+Theorem render_node_balanced :
+  forall (d : deco) (mw : N) (n : rnode) (st st' : rstate) (s : subr) (rest : list subr),
+       render_node d mw n st = Ok st' ->
+       stack st = s :: rest -> exists s' : subr, stack st' = s' :: rest /\ meta_of s' = meta_of s.
+Proof. exact AnnBalance.render_node_balanced. Qed.
+Print Assumptions render_node_balanced.
+
+Theorem sub_renderer_balanced :
+  forall (d : deco) (mw : N) (cs : list rnode) (st : rstate) (tp : subr) (w : N) 
+         (st2 : rstate) (sub : subr) (st3 : rstate),
+       top st = Ok tp ->
+       fold_left (fun (acc : res rstate) (c : rnode) => do s <- acc; render_node d mw c s) cs
+         (Ok (push_sub st (new_sub_renderer tp w))) = Ok st2 ->
+       pop_sub st2 = Ok (sub, st3) ->
+       stack st3 = stack st /\
+       meta_of sub =
+       {| m_w := w; m_o := sopts tp; m_ann := ann_stack tp; m_filt := 0; m_pre := 0; m_ws := [] |}.
+Proof. exact AnnBalance.sub_renderer_balanced. Qed.
+Print Assumptions sub_renderer_balanced.
+
+Theorem render_tree_balanced :
+  forall (d : deco) (mw : N) (o : ropts) (width : N) (tree : rnode) (s : subr),
+       render_tree d mw o width tree = Ok s ->
+       meta_of s = {| m_w := width; m_o := o; m_ann := []; m_filt := 0; m_pre := 0; m_ws := [] |}.
+Proof. exact AnnBalance.render_tree_balanced. Qed.
+Print Assumptions render_tree_balanced.
+
+Theorem render_node_tags :
+  forall (Q : tag -> Prop) (d : deco) (mw : N) (n : rnode) (st st' : rstate) 
+         (s : subr) (rest : list subr),
+       Q [] ->
+       render_node d mw n st = Ok st' ->
+       stack st = s :: rest ->
+       (forall x : list ann, Q (ann_stack s ++ x)) ->
+       sub_Q Q s -> exists s' : subr, stack st' = s' :: rest /\ meta_of s' = meta_of s /\ sub_Q Q s'.
+Proof. exact AnnBalance.render_node_tags. Qed.
+Print Assumptions render_node_tags.
+
+Theorem text_leaf_tags :
+  forall (Qold : tag -> Prop) (d : deco) (mw : N) (t : text) (sty : cstyle) 
+         (st st' : rstate) (s : subr) (rest : list subr),
+       render_node d mw (RN (IText t) sty) st = Ok st' ->
+       stack st = s :: rest ->
+       sub_Q Qold s ->
+       let A := ann_stack s ++ style_anns d sty in
+       let inpre := 0 <? pre_depth s + (if cs_internal_pre sty then 1 else 0) in
+       exists s' : subr,
+         stack st' = s' :: rest /\
+         meta_of s' = meta_of s /\
+         sub_Q
+           (fun x : tag =>
+            Qold x \/
+            x = [] \/
+            x = (if inpre then A ++ [d_pre_first d] else A) \/ x = (if inpre then A ++ [d_pre_cont d] else A))
+           s'.
+Proof. exact AnnBalance.text_leaf_tags. Qed.
+Print Assumptions text_leaf_tags.
+
+Theorem inline_element_tags :
+  forall (Qold : tag -> Prop) (d : deco) (mw : N) (i : rinfo) (sty : cstyle) 
+         (a : ann) (cs : list rnode) (st st' : rstate) (s : subr) (rest : list subr),
+       inline_ann d i = Some (a, cs) ->
+       render_node d mw (RN i sty) st = Ok st' ->
+       stack st = s :: rest ->
+       sub_Q Qold s ->
+       exists s' : subr,
+         stack st' = s' :: rest /\
+         sub_Q (fun t : tag => Qold t \/ t = [] \/ ext (ann_stack s ++ style_anns d sty ++ [a]) t) s'.
+Proof. exact AnnBalance.inline_element_tags. Qed.
+Print Assumptions inline_element_tags.
+
